@@ -1,10 +1,12 @@
 package main
 
 import (
+	"encoding/json"
 	"flag"
 	"fmt"
 	"os"
 
+	"sifverif/chain"
 	"sifverif/extract"
 	"sifverif/props"
 	"sifverif/relayrig"
@@ -70,6 +72,20 @@ func main() {
 		}
 	case "relay-segment":
 		relayrig.RunSegment(os.Args[2])
+	case "replay-child":
+		// executes the job file's calls in this fresh process; results to <job>.out
+		bz, err := os.ReadFile(os.Args[2])
+		if err != nil {
+			panic(err)
+		}
+		var job chain.ReplayJob
+		if err := json.Unmarshal(bz, &job); err != nil {
+			panic(err)
+		}
+		out, _ := json.Marshal(chain.RunReplayJob(job))
+		if err := os.WriteFile(os.Args[2]+".out", out, 0o644); err != nil {
+			panic(err)
+		}
 	default:
 		fmt.Fprintln(os.Stderr, "unknown command")
 		os.Exit(2)
